@@ -1188,3 +1188,47 @@ def independent_keys(check: Check, funcs: Iterable[ast.AST], rule: str = "INDEPE
                  "no early break" if not bad else f"`break` at line {bad[0][1].lineno} leaves the remaining keys of `for {unparse(bad[0][0].target)} in {unparse(bad[0][0].iter)[:40]}` unprocessed",
                  nontrivial=bool(bad))
     return n
+
+
+# --------------------------------------------------------------------------- #
+# CACHED-MUTABLE-RESULT
+
+
+def cached_mutable_returns(fn: ast.AST) -> list[ast.Return]:
+    """Returns of a fresh mutable container from a function memoised by functools (lru_cache / cache / cached_property
+    is not included: a cached_property is per instance and documented as such)."""
+    if not _cache_decorated(fn):
+        return []
+    out = []
+    for r in walk_body(fn):
+        if isinstance(r, ast.Return) and r.value is not None:
+            v = r.value
+            if isinstance(v, (ast.Dict, ast.List, ast.Set, ast.DictComp, ast.ListComp, ast.SetComp)) or (
+                    isinstance(v, ast.Call) and isinstance(v.func, ast.Name) and v.func.id in _MUTABLE_CALLS):
+                out.append(r)
+    return out
+
+
+def cached_mutable_result(check: Check, mods: Iterable[Module], rule: str = "CACHED-MUTABLE-RESULT") -> int:
+    check.rule(
+        rule,
+        "a function memoised with functools.lru_cache / cache does not return a mutable container it has just built "
+        "(dict / list / set display or comprehension): the cache hands the *same* object to every caller, so one caller "
+        "editing its result - shifting the line of a formatted location by a file offset - changes what every later "
+        "caller with equal arguments receives (error.formatted['locations'] no longer agrees with error.locations)",
+    )
+    fx = fixture("generic_controls")
+    check.control(f"{rule}:bad", bool(cached_mutable_returns(fx.get("cached_dict_bad"))), True)
+    check.control(f"{rule}:ok", bool(cached_mutable_returns(fx.get("cached_bad"))), False)
+    n = 0
+    for m in mods:
+        for fn in m.functions():
+            if isinstance(fn, ast.Lambda) or not _cache_decorated(fn):
+                continue
+            n += 1
+            bad = cached_mutable_returns(fn)
+            check.ob(rule, fn, f"{qualname_of(fn)}: memoised result", not bad,
+                     "immutable / not built on the spot" if not bad else f"returns a fresh `{unparse(bad[0].value)[:40]}` that all callers will share")
+    if n == 0:
+        check.ob(rule, next(iter(mods)).tree if mods else ast.Module(body=[], type_ignores=[]), "no functools-memoised function in scope", True, "nothing to check", nontrivial=False)
+    return n
